@@ -47,3 +47,304 @@ theorem normalize_no_cr : ∀ (n : Nat) (bs : Bytes), bs.length ≤ n → CR ∉
         · exact h2 hm'
 
 end C17
+
+namespace Ohkami.Sse
+
+/-! ### a client: the event-stream interpretation (WHATWG HTML 9.2.6) restricted to what the server emits -/
+
+/-- one line: up to the first LF and the rest after it; `none` if the stream ends before a line end -/
+def takeLine : Bytes → Option (Bytes × Bytes)
+  | [] => none
+  | b :: t => if b = LF then some ([], t) else (takeLine t).map fun lr => (b :: lr.1, lr.2)
+
+def dataColon : Bytes := [100, 97, 116, 97, 58]   -- "data:"
+
+/-- the value of a `data` field line (`data:` then at most one space removed); `none` for any other line -/
+def dataValue (line : Bytes) : Option Bytes :=
+  if dataColon.isPrefixOf line then
+    let v := line.drop 5
+    some (if v.head? = some 32 then v.drop 1 else v)
+  else none
+
+/-- lines are processed in order: a data line appends its value and LF to the buffer; an empty line dispatches the buffer without its
+last LF (nothing, if no data line came); anything else is ignored; an unterminated last line is dropped -/
+def sseParse : Nat → Bytes → Bytes → List Bytes
+  | 0, _, _ => []
+  | fuel + 1, stream, buf =>
+    match takeLine stream with
+    | none => []
+    | some (line, rest) =>
+      if line = [] then (if buf = [] then sseParse fuel rest [] else buf.dropLast :: sseParse fuel rest [])
+      else match dataValue line with
+        | some v => sseParse fuel rest (buf ++ v ++ [LF])
+        | none => sseParse fuel rest buf
+
+theorem takeLine_line (l rest : Bytes) (h : LF ∉ l) : takeLine (l ++ LF :: rest) = some (l, rest) := by
+  induction l with
+  | nil => simp [takeLine]
+  | cons b t ih =>
+    have hb : b ≠ LF := fun e => h (by simp [e])
+    have := ih (fun hm => h (List.mem_cons_of_mem _ hm))
+    simp [takeLine, hb, this]
+
+theorem dataValue_line (l : Bytes) : dataValue (dataPrefix ++ l) = some l := by
+  simp [dataValue, dataPrefix, dataColon, List.isPrefixOf]
+
+theorem splitOn_no_sep (sep : UInt8) : ∀ (bs : Bytes), ∀ l ∈ splitOn sep bs, sep ∉ l := by
+  intro bs
+  induction bs with
+  | nil => intro l hl; simp [splitOn] at hl; subst hl; simp
+  | cons b t ih =>
+    intro l hl
+    simp only [splitOn] at hl
+    cases hs : splitOn sep t with
+    | nil => simp [hs] at hl; subst hl; simp
+    | cons x xs =>
+      simp only [hs] at hl ih
+      by_cases hb : b = sep
+      · simp only [hb, if_true, List.mem_cons] at hl
+        rcases hl with rfl | rfl | hl
+        · simp
+        · exact ih _ (by simp)
+        · exact ih _ (by simp [hl])
+      · simp only [hb, if_false, List.mem_cons] at hl
+        rcases hl with rfl | hl
+        · intro hm
+          rcases List.mem_cons.mp hm with h | h
+          · exact hb h.symm
+          · exact ih x (by simp) h
+        · exact ih _ (by simp [hl])
+
+theorem splitOn_ne_nil (sep : UInt8) (bs : Bytes) : splitOn sep bs ≠ [] := by
+  cases bs with
+  | nil => simp [splitOn]
+  | cons b t =>
+    simp only [splitOn]
+    cases splitOn sep t with
+    | nil => simp
+    | cons x xs => by_cases hb : b = sep <;> simp [hb]
+
+/-- joining the pieces with the separator after each, and dropping the last separator, gives the text back -/
+theorem splitOn_join (sep : UInt8) : ∀ (bs : Bytes), (((splitOn sep bs).map (· ++ [sep])).flatten).dropLast = bs := by
+  intro bs
+  induction bs with
+  | nil => simp [splitOn]
+  | cons b t ih =>
+    simp only [splitOn]
+    cases hs : splitOn sep t with
+    | nil => exact absurd hs (splitOn_ne_nil sep t)
+    | cons x xs =>
+      rw [hs] at ih
+      by_cases hb : b = sep
+      · simp only [hb, if_true, List.map_cons, List.flatten_cons, List.nil_append]
+        simp only [List.map_cons, List.flatten_cons] at ih
+        have hne : x ++ [sep] ++ (xs.map (· ++ [sep])).flatten ≠ [] := by simp
+        rw [show [sep] ++ (x ++ [sep] ++ (xs.map (· ++ [sep])).flatten) = sep :: (x ++ [sep] ++ (xs.map (· ++ [sep])).flatten) from rfl,
+          List.dropLast_cons_of_ne_nil hne, ih]
+      · simp only [hb, if_false, List.map_cons, List.flatten_cons, List.cons_append]
+        simp only [List.map_cons, List.flatten_cons] at ih
+        have hne : x ++ [sep] ++ (xs.map (· ++ [sep])).flatten ≠ [] := by simp
+        rw [List.dropLast_cons_of_ne_nil (by simpa using hne)]
+        simp only [List.append_assoc] at ih ⊢
+        rw [ih]
+
+/-- the data lines of one message fill the buffer -/
+theorem parse_lines : ∀ (ls : List Bytes) (rest buf : Bytes) (fuel : Nat), (∀ l ∈ ls, LF ∉ l) →
+    sseParse (fuel + ls.length) ((ls.map fun l => dataPrefix ++ l ++ [LF]).flatten ++ rest) buf =
+      sseParse fuel rest (buf ++ (ls.map (· ++ [LF])).flatten) := by
+  intro ls
+  induction ls with
+  | nil => intro rest buf fuel _; simp
+  | cons l ls ih =>
+    intro rest buf fuel h
+    have hl : LF ∉ dataPrefix ++ l := by
+      intro hm
+      rcases List.mem_append.mp hm with h1 | h1
+      · simp [dataPrefix, LF] at h1
+      · exact h l (List.mem_cons_self ..) h1
+    have e : ((l :: ls).map fun l => dataPrefix ++ l ++ [LF]).flatten ++ rest
+        = (dataPrefix ++ l) ++ LF :: ((ls.map fun l => dataPrefix ++ l ++ [LF]).flatten ++ rest) := by simp
+    rw [e, show fuel + (l :: ls).length = (fuel + ls.length) + 1 by simp; omega, sseParse, takeLine_line _ _ hl]
+    have hne : dataPrefix ++ l ≠ [] := by simp [dataPrefix]
+    simp only [hne, if_false, dataValue_line]
+    rw [ih rest _ fuel (fun x hx => h x (List.mem_cons_of_mem _ hx))]
+    simp
+
+/-- **One message decodes to its text** (line breaks normalised to LF), and the parser goes on with an empty buffer -/
+theorem parse_message (chunk rest : Bytes) (fuel : Nat) :
+    sseParse (fuel + (splitOn LF (normalizeNewlines chunk)).length + 1) (message chunk ++ rest) [] =
+      normalizeNewlines chunk :: sseParse fuel rest [] := by
+  unfold message
+  have hls := splitOn_no_sep LF (normalizeNewlines chunk)
+  have e : ((splitOn LF (normalizeNewlines chunk)).map fun line => dataPrefix ++ line ++ [LF]).flatten ++ [LF] ++ rest
+      = ((splitOn LF (normalizeNewlines chunk)).map fun line => dataPrefix ++ line ++ [LF]).flatten ++ (LF :: rest) := by simp
+  rw [e, show fuel + (splitOn LF (normalizeNewlines chunk)).length + 1 = (fuel + 1) + (splitOn LF (normalizeNewlines chunk)).length by omega,
+    parse_lines _ _ _ _ hls, sseParse]
+  have htl : takeLine (LF :: rest) = some ([], rest) := by simp [takeLine]
+  simp only [htl, if_true, List.nil_append]
+  have hne : ((splitOn LF (normalizeNewlines chunk)).map (· ++ [LF])).flatten ≠ [] := by
+    cases hs : splitOn LF (normalizeNewlines chunk) with
+    | nil => exact absurd hs (splitOn_ne_nil _ _)
+    | cons x xs => simp
+  simp only [hne, if_false, splitOn_join]
+
+def linesOf (items : List Bytes) : Nat := (items.map fun c => (splitOn LF (normalizeNewlines c)).length + 1).sum
+
+/-- **The event stream decodes to exactly the messages**, in order: none lost, duplicated, merged or split — whatever the texts hold
+(empty strings, CR / LF / CRLF, `data:` or `event:` look-alikes, leading spaces, any bytes) -/
+theorem stream_decodes : ∀ (items : List Bytes) (fuel : Nat),
+    sseParse (fuel + linesOf items) ((items.map message).flatten) [] = items.map normalizeNewlines ++ sseParse fuel [] [] := by
+  intro items
+  induction items with
+  | nil => intro fuel; simp [linesOf]
+  | cons c cs ih =>
+    intro fuel
+    have e : ((c :: cs).map message).flatten = message c ++ (cs.map message).flatten := by simp
+    have hl : fuel + linesOf (c :: cs) = (fuel + linesOf cs) + (splitOn LF (normalizeNewlines c)).length + 1 := by
+      simp [linesOf]; omega
+    rw [e, hl, parse_message, ih]
+    simp
+
+theorem sseParse_end (fuel : Nat) : sseParse fuel [] [] = [] := by
+  cases fuel <;> simp [sseParse, takeLine]
+
+
+/-! ### a client: the chunked transfer coding (RFC 9112 7.1) -/
+
+def hexVal (b : UInt8) : Option Nat :=
+  if 48 ≤ b ∧ b ≤ 57 then some (b.toNat - 48) else if 97 ≤ b ∧ b ≤ 102 then some (b.toNat - 87) else none
+
+/-- `1*HEXDIG` (lowercase), most significant digit first -/
+def parseHex (ds : Bytes) : Option Nat :=
+  if ds = [] then none else ds.foldl (fun acc d => acc.bind fun a => (hexVal d).map (a * 16 + ·)) (some 0)
+
+/-- the bytes before the first CRLF and the bytes after it -/
+def takeCRLF : Bytes → Option (Bytes × Bytes)
+  | [] => none
+  | [_] => none
+  | b :: c :: t => if b = CR ∧ c = LF then some ([], t) else (takeCRLF (c :: t)).map fun lr => (b :: lr.1, lr.2)
+
+/-- `chunked-body = *chunk last-chunk CRLF` without extensions or trailers: the concatenated chunk data -/
+def dechunk : Nat → Bytes → Option Bytes
+  | 0, _ => none
+  | fuel + 1, bs =>
+    match takeCRLF bs with
+    | none => none
+    | some (sz, rest) =>
+      match parseHex sz with
+      | none => none
+      | some 0 => if rest = [CR, LF] then some [] else none
+      | some n =>
+        if n + 2 ≤ rest.length ∧ (rest.drop n).take 2 = [CR, LF] then (dechunk fuel (rest.drop (n + 2))).map (rest.take n ++ ·) else none
+
+theorem hexVal_digit : ∀ d : Fin 16, hexVal (hexDigit d.val) = some d.val := by decide
+
+theorem hexDigit_ne_cr : ∀ d : Fin 16, hexDigit d.val ≠ CR := by decide
+
+theorem hexNoLeading_ne_nil (f n : Nat) : hexNoLeading (f + 1) n ≠ [] := by
+  simp only [hexNoLeading]; split <;> simp
+
+theorem hexNoLeading_no_cr : ∀ (f n : Nat), CR ∉ hexNoLeading f n := by
+  intro f
+  induction f with
+  | zero => intro n; simp [hexNoLeading]
+  | succ f ih =>
+    intro n
+    simp only [hexNoLeading]
+    split
+    · rename_i h; have := hexDigit_ne_cr ⟨n, h⟩; simpa using this.symm
+    · have h16 : n % 16 < 16 := Nat.mod_lt _ (by decide)
+      have := hexDigit_ne_cr ⟨n % 16, h16⟩
+      simp only [List.mem_append, List.mem_singleton, not_or]
+      exact ⟨ih _, by simpa using this.symm⟩
+
+theorem foldHex (f : Nat) : ∀ n, n < 16 ^ f → (hexNoLeading f n).foldl (fun acc d => acc.bind fun a => (hexVal d).map (a * 16 + ·)) (some 0) = some n ∨ f = 0 := by
+  induction f with
+  | zero => intro n _; right; rfl
+  | succ f ih =>
+    intro n hn
+    left
+    simp only [hexNoLeading]
+    by_cases h : n < 16
+    · simp only [h, if_true, List.foldl_cons, List.foldl_nil, Option.bind_some]
+      have := hexVal_digit ⟨n, h⟩
+      simp only at this
+      simp [this]
+    · simp only [h, if_false, List.foldl_append, List.foldl_cons, List.foldl_nil]
+      have hq : n / 16 < 16 ^ f := by
+        rw [Nat.pow_succ] at hn
+        exact Nat.div_lt_of_lt_mul (by omega)
+      rcases ih (n / 16) hq with hh | hz
+      · rw [hh]
+        have h16 : n % 16 < 16 := Nat.mod_lt _ (by decide)
+        have := hexVal_digit ⟨n % 16, h16⟩
+        simp only at this
+        simp only [Option.bind_some, this, Option.map_some, Option.some.injEq]
+        omega
+      · subst hz; simp at hq; omega
+
+theorem parseHex_hex (n : Nat) (h : n < 16 ^ 16) : parseHex (hexNoLeading 16 n) = some n := by
+  unfold parseHex
+  have hne := hexNoLeading_ne_nil 15 n
+  simp only [hne, if_false]
+  rcases foldHex 16 n h with hh | hz
+  · exact hh
+  · cases hz
+
+theorem takeCRLF_line : ∀ (l rest : Bytes), CR ∉ l → takeCRLF (l ++ CR :: LF :: rest) = some (l, rest) := by
+  intro l
+  induction l with
+  | nil => intro rest _; simp [takeCRLF]
+  | cons b t ih =>
+    intro rest h
+    have hb : b ≠ CR := fun e => h (by simp [e])
+    have := ih rest (fun hm => h (List.mem_cons_of_mem _ hm))
+    cases t with
+    | nil => simp [takeCRLF, hb] at this ⊢
+    | cons c t' => simp only [List.cons_append] at this ⊢; simp [takeCRLF, hb, this]
+
+/-- **De-chunking the body gives the concatenated event stream**, and the body ends with the last-chunk: a client knows where the
+response ends -/
+theorem dechunk_body : ∀ (items : List Bytes), (∀ c ∈ items, (message c).length < 16 ^ 16) →
+    dechunk (items.length + 1) (body items) = some ((items.map message).flatten) := by
+  intro items
+  induction items with
+  | nil =>
+    intro _
+    have : takeCRLF (body []) = some ([48], [CR, LF]) := by decide
+    have hp : parseHex [48] = some 0 := by decide
+    simp [dechunk, this, hp]
+  | cons c cs ih =>
+    intro h
+    have hc := h c (List.mem_cons_self ..)
+    have hpos := C17.message_nonempty c
+    have e : body (c :: cs) = hexNoLeading 16 (message c).length ++ CR :: LF :: (message c ++ CR :: LF :: body cs) := by
+      simp [body, chunkOf]
+    rw [e, show (c :: cs).length + 1 = (cs.length + 1) + 1 from rfl, dechunk, takeCRLF_line _ _ (hexNoLeading_no_cr _ _)]
+    simp only [parseHex_hex _ hc]
+    obtain ⟨k, hk⟩ : ∃ k, (message c).length = k + 1 := ⟨(message c).length - 1, by omega⟩
+    rw [hk]
+    simp only
+    have h1 : k + 1 + 2 ≤ (message c ++ CR :: LF :: body cs).length := by simp only [List.length_append, List.length_cons]; omega
+    have h2 : ((message c ++ CR :: LF :: body cs).drop (k + 1)).take 2 = [CR, LF] := by
+      rw [← hk, List.drop_left']; rfl; rfl
+    have h3 : (message c ++ CR :: LF :: body cs).drop (k + 1 + 2) = body cs := by
+      rw [← hk, show (message c).length + 2 = (message c).length + 2 from rfl, ← List.drop_drop, List.drop_left' rfl]; rfl
+    have h4 : (message c ++ CR :: LF :: body cs).take (k + 1) = message c := by rw [← hk, List.take_left' rfl]
+    simp only [h1, h2, and_self, if_true, h3, h4, ih (fun x hx => h x (List.mem_cons_of_mem _ hx))]
+    simp
+
+/-- **What the client receives decodes to exactly what the handler sent.**  The bytes after the response head are a valid chunked body ending
+with the last-chunk; de-chunked they are a valid event stream; interpreted as the event-stream format prescribes they are exactly the
+messages, in order, each with its line breaks normalised to LF — for every list of messages whatever they contain (message sizes below
+2^64, the range of the size rendering). -/
+theorem wire_decodes (items : List Bytes) (h : ∀ c ∈ items, (message c).length < 16 ^ 16) :
+    ∃ stream, dechunk (items.length + 1) (body items) = some stream ∧ sseParse (1 + linesOf items) stream [] = items.map normalizeNewlines := by
+  refine ⟨_, dechunk_body items h, ?_⟩
+  rw [stream_decodes items 1, sseParse_end]; simp
+
+-- non-vacuity: three messages, one empty, one with CRLF and a look-alike field name
+example : (dechunk 4 (body [[], [97, 13, 10, 98], [100, 97, 116, 97, 58, 120]])).map (sseParse 8 · []) =
+    some [[], [97, 10, 98], [100, 97, 116, 97, 58, 120]] := by decide
+
+end Ohkami.Sse
